@@ -331,6 +331,8 @@ def case_terms(sp, depth, nkeys=3):
     try:
         t, req, out, typ = gen(depth - 1)
     except AssertionError as e:
-        return [Ob("term_construction_follows_key_rules", False, lambda model=None, e=e: dict(kind="typed", which="terms", error=str(e)))]
+        script = [int(v) for _, v in symx.space().choices]
+        return [Ob("term_construction_follows_key_rules", False, lambda model=None, e=e: dict(kind="typed", which="terms", depth=depth, nkeys=nkeys, script=script, error=str(e)))]
     ok = t.required_keys == {keys[i] for i in req} and t.output_keys == {keys[i] for i in out}
-    return [Ob("term_declares_expected_keys", ok, lambda model=None: dict(kind="typed", which="terms", str=str(t)))]
+    script = [int(v) for _, v in symx.space().choices]
+    return [Ob("term_declares_expected_keys", ok, lambda model=None: dict(kind="typed", which="terms", depth=depth, nkeys=nkeys, script=script, str=str(t)))]
